@@ -247,7 +247,7 @@ def drive_atheris(ctx: Ctx) -> None:
         ctx.extra["atheris"] = f"unavailable: {type(e).__name__}: {e}"
         ctx.classes["atheris_unavailable"] += 1
         return
-    runs = ctx.pick(12_000, 400_000)
+    runs = ctx.pick(12_000, 300_000)
     mode = ["structured", "raw"][ctx.shard % 2]
     seeded = (ctx.shard // 2) % 2 == 0
     work = tempfile.mkdtemp(prefix=f"c18_{ctx.shard}_", dir=_work_dir())
@@ -310,9 +310,9 @@ def _work_dir() -> str:
 
 
 PARTS: list[Part] = [
-    hyp_part("mutations", strat_mutations, check_mutation, {"quick": 900, "thorough": 20000},
+    hyp_part("mutations", strat_mutations, check_mutation, {"quick": 900, "thorough": 10000},
              {"quick": 6, "thorough": 16}),
-    hyp_part("assembled", strat_assembled, check_assembled, {"quick": 900, "thorough": 20000},
+    hyp_part("assembled", strat_assembled, check_assembled, {"quick": 900, "thorough": 10000},
              {"quick": 4, "thorough": 16}),
     custom_part("atheris", drive_atheris, check_mutation, {"quick": 4, "thorough": 16}),
 ]
